@@ -23,12 +23,12 @@ mod proofs {
     }
     fn stub_format(_: core::fmt::Arguments<'_>) -> String { String::new() }
 
-    const N: usize = 2; // payload bytes
+    const N: usize = 3; // payload bytes
 
     // store then load returns the payload (C14: "decodes to exactly the logical content that was encoded")
     #[kani::proof]
     #[kani::stub(alloc::fmt::format, stub_format)]
-    #[kani::unwind(70)]
+    #[kani::unwind(55)]
     fn store_load_roundtrip() {
         let p: [u8; N] = kani::any();
         let n: usize = kani::any();
@@ -42,7 +42,7 @@ mod proofs {
     // any file content (any length 0..=48+N, any bytes): either rejected, or it is exactly the envelope of what is returned
     #[kani::proof]
     #[kani::stub(alloc::fmt::format, stub_format)]
-    #[kani::unwind(70)]
+    #[kani::unwind(55)]
     fn load_accepts_only_envelopes() {
         let bytes: [u8; 48 + N] = kani::any();
         let len: usize = kani::any();
